@@ -73,7 +73,7 @@ func init() {
 	// ------------------------------------------------------------------ C01
 	register(&Spec{Prop: "C01",
 		Gen: func(t *rapid.T, th bool) *Case {
-			pf := &Profile{WQueueProb: 10, Kinds: allKinds, QKinds: allQKinds, MaxQueues: 2, Concs: []int{1, 2, 3, 4}, Expiry: []int{0, 0, 0, 60, 1000}, Ratio: []int{0, 0, 20, 50, 100},
+			pf := &Profile{Strategies: []int{0, 0, 1, 2}, WQueueProb: 10, Kinds: allKinds, QKinds: allQKinds, MaxQueues: 2, Concs: []int{1, 2, 3, 4}, Expiry: []int{0, 0, 0, 60, 1000}, Ratio: []int{0, 0, 20, 50, 100},
 				IDGenProb: 30, ErrsReader: 30, MinClients: 1, MaxClients: 3, MaxOps: scale(th, 7, 14),
 				Ops:     map[string]int{"add": 30, "addall": 8, "addmany": 8, "wait": 8, "close": 8, "purge": 3, "sleep": 6, "qclose": 1, "release": 3, "yield": 3},
 				Ctrl:    map[string]int{"pause": 3, "pausewait": 3, "resume": 4, "stop": 2, "restart": 3, "tune": 5, "sleep": 3},
@@ -118,7 +118,7 @@ func init() {
 	// ------------------------------------------------------------------ C03
 	register(&Spec{Prop: "C03",
 		Gen: func(t *rapid.T, th bool) *Case {
-			pf := &Profile{WQueueProb: 10, Kinds: allKinds, QKinds: allQKinds, MaxQueues: 2, Concs: []int{1, 2, 3, 4}, Expiry: []int{0, 0, 60, 1000}, Ratio: []int{0, 0, 20, 100},
+			pf := &Profile{Strategies: []int{0, 0, 1, 2}, WQueueProb: 10, Kinds: allKinds, QKinds: allQKinds, MaxQueues: 2, Concs: []int{1, 2, 3, 4}, Expiry: []int{0, 0, 60, 1000}, Ratio: []int{0, 0, 20, 100},
 				ErrsReader: 40, MinClients: 1, MaxClients: 3, MaxOps: scale(th, 7, 14),
 				Ops:     map[string]int{"add": 30, "addall": 6, "addmany": 8, "wait": 6, "close": 8, "purge": 2, "sleep": 8, "release": 4, "settle": 3, "yield": 3},
 				Ctrl:    map[string]int{"pause": 3, "resume": 4, "tune": 8, "sleep": 4, "settle": 2},
